@@ -36,12 +36,17 @@ def handleAlphaView (fs : List (String × String)) : String :=
         let model := injectImg dv n ⟨dv.width, dv.height, n, res⟩ dbuf
         let cm := canonComps p.kind model
         let cg := canonComps p.kind gbuf
-        let tol : Int := if (!isMul) ∧ p.kind == .u16 ∧ ext != "none" then 1 else 0
+        -- 16-bit SIMD division: a component comes from the f32 lane (main loop) or the portable code (row tail)
+        let simd16 : Bool := (!isMul) ∧ p.kind == .u16 ∧ ext != "none"
+        let cmS : Array Int := if simd16 then
+            injectImg dv n ⟨dv.width, dv.height, n,
+              mapAlphaPixels n (fun c a => ((Simd.simdDiv16 c.toNat a.toNat : Nat) : Int)) simg.data⟩ dbuf
+          else cm
         let modelMsg : Option String := Id.run do
           if cm.size ≠ cg.size then return some "size"
           for i in [0:cm.size] do
-            let d := cm[i]! - cg[i]!
-            if d > tol ∨ d < -tol then return some s!"buffer comp {i}: model={cm[i]!} got={cg[i]!}"
+            if cm[i]! ≠ cg[i]! ∧ cmS[i]! ≠ cg[i]! then
+              return some s!"buffer comp {i}: model={cm[i]!} lane={cmS[i]!} got={cg[i]!}"
           return none
         -- specification, independent of the model's arithmetic
         let gimg := extractImg dv n gbuf
